@@ -330,6 +330,10 @@ func (v *VLA) Unmarshal(payload []byte) (int, error) {
 		payload: payload,
 	}
 
+	// decode into a clean value even when v was used before
+	v.ActiveSpatialLayer = nil
+	v.HasResolutionAndFramerate = false
+
 	err := v.unmarshalSpatialLayers(ctx)
 	if err != nil {
 		return ctx.offset, err
